@@ -31,6 +31,7 @@ const (
 	ckPlus100us      // + 100 microseconds
 	ckBefore100us    // to 100 microseconds before the next boundary
 	ckAfter100us     // 100 microseconds past the next boundary
+	ckBackInterval   // the wall clock jumps BACK by one interval (robustness only: C19)
 )
 
 type OutageOp struct {
@@ -135,6 +136,10 @@ func clockEnv(x *Exec, s *RollScn, boundaries *int) {
 			d = next.Sub(now) - 100*time.Microsecond
 		case ckAfter100us:
 			d = next.Sub(now) + 100*time.Microsecond
+		case ckBackInterval:
+			x.Sim.Jump(-iv)
+			x.Sim.Probe("clock_jumped_back")
+			return
 		}
 		if d <= 0 {
 			d = 50 * time.Microsecond
@@ -312,6 +317,13 @@ func (c13) Run(x *Exec, scn any) {
 // properly named file; time order against the file's name.
 func judgeRolling(x *Exec, s *RollScn, pid string, writes []*rollWrite, iv time.Duration, strictTime bool) {
 	o := x.Out
+	failedOS := x.FS.FailedWriteSet() // writes the simulated OS refused (fault injection): only these may be missing
+	backward := false
+	for _, k := range s.Clock {
+		if k == ckBackInterval {
+			backward = true
+		}
+	}
 	files := map[string][]byte{}
 	for p, data := range x.FS.AllFiles() {
 		base := p[strings.LastIndex(p, "/")+1:]
@@ -343,6 +355,10 @@ func judgeRolling(x *Exec, s *RollScn, pid string, writes []*rollWrite, iv time.
 			continue
 		}
 		where, total := locate(files, w.Payload)
+		if total == 0 && failedOS[w.Payload] {
+			x.Sim.Probe("write_failed_in_os_and_absent")
+			continue // the OS refused this very write: the only legitimate way for a returned write to be absent
+		}
 		switch {
 		case total == 0:
 			disc := "no-failed-os-write"
@@ -360,7 +376,7 @@ func judgeRolling(x *Exec, s *RollScn, pid string, writes []*rollWrite, iv time.
 		if !ok {
 			continue
 		}
-		if w.End.Before(ft) {
+		if w.End.Before(ft) && !backward {
 			o.violate("write-before-file-time", pid+"/write-before-file-time", "write %s completed at %s but sits in %s whose name time is later", w.ID, w.End.Format(time.RFC3339Nano), base)
 		}
 		if strictTime && len(s.Writers) == 1 && !strings.HasPrefix(w.ID, "r") {
@@ -407,7 +423,12 @@ func (c19) Gen(rt *rapid.T, thorough bool) any {
 	}
 	n := rapid.IntRange(1, 2).Draw(rt, "outages")
 	for i := 0; i < n; i++ {
-		s.Outage = append(s.Outage, OutageOp{Kind: rapid.SampledFrom([]string{"rename", "rename", "emfile", "enospc", "eacces"}).Draw(rt, "outage")}, OutageOp{Kind: "restore"})
+		s.Outage = append(s.Outage, OutageOp{Kind: rapid.SampledFrom([]string{"rename", "rename", "emfile", "enospc", "eacces", "wfail", "wfail-short"}).Draw(rt, "outage")}, OutageOp{Kind: "restore"})
+	}
+	if rapid.IntRange(0, 5).Draw(rt, "clock_back") == 0 {
+		// the wall clock may also jump backwards; then only robustness clauses are judged
+		pos := rapid.IntRange(0, len(s.Clock)).Draw(rt, "clock_back_pos")
+		s.Clock = append(s.Clock[:pos], append([]int{ckBackInterval}, s.Clock[pos:]...)...)
 	}
 	return s
 }
@@ -461,6 +482,16 @@ func (c19) Run(x *Exec, scn any) {
 				errno := map[string]syscall.Errno{"emfile": syscall.EMFILE, "enospc": syscall.ENOSPC, "eacces": syscall.EACCES}[op.Kind]
 				rule = x.FS.AddFault(&simos.FaultRule{Op: "open", Prefix: rollDir, Err: errno, Count: -1})
 				x.Sim.Probe("outage_started")
+			}
+		case "wfail", "wfail-short":
+			// the device is full: writes to the held files fail (entirely, or after 5 bytes)
+			if !away && rule == nil {
+				short := 0
+				if op.Kind == "wfail-short" {
+					short = 5
+				}
+				rule = x.FS.AddFault(&simos.FaultRule{Op: "write", Prefix: rollDir, Err: syscall.ENOSPC, Count: -1, Short: short})
+				x.Sim.Probe("write_outage_started")
 			}
 		case "restore":
 			restore()
@@ -560,8 +591,14 @@ func (c19) Run(x *Exec, scn any) {
 	o.Reached = (failedOpens > 0 || x.Sim.Probes["open_enoent"] > 0) && len(writes) > 1
 	// (1) nothing accepted is lost: no write fault was injected, so every returned write must be somewhere
 	judgeRolling(x, s, "C19", writes, iv, false)
-	// (2) retry at the next boundary after the outage
-	if final.Returned {
+	// (2) retry at the next boundary after the outage (not judged when the clock also jumped backwards)
+	backward := false
+	for _, k := range s.Clock {
+		if k == ckBackInterval {
+			backward = true
+		}
+	}
+	if final.Returned && !backward {
 		files := map[string][]byte{}
 		for p, d := range x.FS.AllFiles() {
 			files[p] = d
